@@ -448,30 +448,37 @@ func runC10(rt *rapid.T) {
 		if err1 != nil && !neverOpened {
 			fail("Close returned %v although every handler returns", err1)
 		}
+		if got := w.conn.State(); got != hsms.NotConnectedState {
+			fail("State()=%v after Close", got)
+		}
+		// The peer is STILL THERE and keeps its ends open: a socket the library forgot must be found
+		// while nobody else can close it for the library (once the peer hangs up, a forgotten receive
+		// loop reads EOF and tidies up after itself).
+		settle := func(what string) {
+			deadline := time.Now().Add(2 * time.Second)
+			for {
+				gs := libGoroutines()
+				leaked := w.leaked()
+				if len(gs) == 0 && len(leaked) == 0 {
+					return
+				}
+				if time.Now().After(deadline) {
+					if len(gs) > 0 {
+						fail("%d goroutine(s) still run library code 2 s after Close (%s):\n%s", len(gs), what, strings.Join(gs, "\n\n"))
+					}
+					fail("left open after Close (%s): %v", what, leaked)
+				}
+				time.Sleep(5 * time.Millisecond)
+			}
+		}
+		settle("the peer still up")
 		close(stop)
 		stop = nil
 		if w.ln != nil {
 			_ = w.ln.Close()
 		}
 		pwg.Wait()
-		if got := w.conn.State(); got != hsms.NotConnectedState {
-			fail("State()=%v after Close", got)
-		}
-		deadline := time.Now().Add(2 * time.Second)
-		for {
-			gs := libGoroutines()
-			leaked := w.leaked()
-			if len(gs) == 0 && len(leaked) == 0 {
-				break
-			}
-			if time.Now().After(deadline) {
-				if len(gs) > 0 {
-					fail("%d goroutine(s) still run library code 2 s after Close:\n%s", len(gs), strings.Join(gs, "\n\n"))
-				}
-				fail("left open after Close: %v", leaked)
-			}
-			time.Sleep(5 * time.Millisecond)
-		}
+		settle("the peer gone")
 		ne := len(w.nw.Events())
 		time.Sleep(3 * 40 * time.Millisecond)
 		if evs := w.nw.Events(); len(evs) != ne {
